@@ -88,3 +88,36 @@ def finalize(self):
     witness(message=self.message, label=self.label, category=self.category, correct=self.correct)
 
 
+
+
+# ---- the registry that merge() consults is written under the keys merge() looks up -------------------------------
+
+@spec
+def alias_of(cat):
+    return ('syntax' if (cat == 'parser' or cat == 'verifier') else
+            ('instructor' if cat == 'instructor' else ('algorithmic' if cat == 'analyzer' else cat)))
+
+
+@target("pedal.core.report:Report.suppress")
+def suppress(self, category=None, label=True, fields=None):
+    """suppress(label=L) files the field set under exactly L (merge looks up feedback.label unchanged);
+    suppress(category, label) files it under the lower-cased (aliased) category and the lower-cased label, which is
+    what merge computes from the feedback's category and label"""
+    requires(instance_of(self, Report) and wf_labels(self.suppressed_labels, self.suppressions)
+             and wf_suppressions(self.suppressions, self.suppressed_labels) and self.suppressions is not self.suppressed_labels)
+    requires((category is None or is_str(category)) and (label is True or is_str(label)) and (fields is None or is_dict(fields)))
+    requires(forall_val(lambda c: implies(has_key(self.suppressions, c), at(self.suppressions, c) is not self.suppressed_labels)))
+    modifies(mapping(self.suppressed_labels), mapping(self.suppressions), dict_of_any(), items_of_any())
+    raises_nothing()
+    ensures("label_only_key_is_the_label_itself", implies(category is None,
+            has_key(self.suppressed_labels, label) and is_list(at(self.suppressed_labels, label))
+            and nitems(at(self.suppressed_labels, label)) >= 1
+            and implies(fields is not None,
+                        item(at(self.suppressed_labels, label), nitems(at(self.suppressed_labels, label)) - 1) is fields)))
+    ensures("category_key_is_lowercased_and_aliased", implies(category is not None,
+            has_key(self.suppressions, alias_of(lower(category)))
+            and has_key(at(self.suppressions, alias_of(lower(category))), (lower(label) if is_str(label) else label))))
+    ensures("category_entry_holds_the_field_set", implies(category is not None and fields is not None,
+            item(at(at(self.suppressions, alias_of(lower(category))), (lower(label) if is_str(label) else label)),
+                 nitems(at(at(self.suppressions, alias_of(lower(category))), (lower(label) if is_str(label) else label))) - 1)
+            is fields))
